@@ -22,6 +22,7 @@ import (
 
 	"verifharness/core"
 	"verifharness/gen"
+	"verifharness/ref"
 )
 
 // C15 - malformed or hostile metadata yields errors, never a crash or a hang.
@@ -951,6 +952,35 @@ func c15HostileDirs(c *core.Ctx, e *c15Env, fast []gen.KeyPair) {
 				}
 			}
 		}},
+		{"honest links whose by-products hold every control character (DSSE: envelopes written by another implementation)", func(ch *gen.Chain, n string) {
+			// what commands print: colours, bells, form feeds, NULs ... on both streams, with and without line ends
+			all := ""
+			for b := 0; b < 0x20; b++ {
+				all += string(rune(b)) + "x"
+			}
+			all += "\x7f"
+			for _, x := range []struct {
+				l intoto.Link
+				k gen.KeyPair
+			}{{ch.WriteLink, ch.W}, {ch.PkgLink, ch.P}} {
+				l := x.l
+				l.ByProducts = map[string]interface{}{"stdout": "\x1b[32mok\x1b[0m", "stderr": all, "return-value": 0}
+				p := filepath.Join(ch.LinkDir, gen.LinkName(l.Name, x.k.Pub.KeyID))
+				if !ch.DSSE {
+					if md, err := gen.SignedMeta(l, false, x.k.Priv); err == nil {
+						md.Dump(p)
+					}
+					continue
+				}
+				pb, _ := json.Marshal(l)
+				sig, err := ref.SignStd(x.k.Signer, ref.PAE(intoto.PayloadType, pb))
+				if err != nil {
+					continue
+				}
+				eb, _ := json.Marshal(map[string]any{"payloadType": intoto.PayloadType, "payload": base64.StdEncoding.EncodeToString(pb), "signatures": []any{map[string]any{"keyid": x.k.Pub.KeyID, "sig": base64.StdEncoding.EncodeToString(sig)}}})
+				os.WriteFile(p, eb, 0644)
+			}
+		}},
 		{"directory named like a link", func(ch *gen.Chain, n string) { os.Remove(n); os.Mkdir(n, 0755) }},
 		{"dangling symlink", func(ch *gen.Chain, n string) { os.Remove(n); os.Symlink("does-not-exist", n) }},
 		{"symlink loop", func(ch *gen.Chain, n string) { os.Remove(n); os.Symlink(filepath.Base(n), n) }},
@@ -1118,6 +1148,9 @@ func c15HostileDirs(c *core.Ctx, e *c15Env, fast []gen.KeyPair) {
 					c.Violation(fmt.Sprintf("panic in InTotoVerify at %s: %s (hostile link directory: %s)", core.PanicSite([]byte(obs.Stack)), core.MsgClass(obs.PanicMsg), h.name), id, map[string]any{"panic": obs.PanicMsg, "directory": h.name, "dsse": dsse})
 				}
 				done++
+				if strings.HasPrefix(h.name, "honest links") && obs.Accepted() {
+					c.Obs("honest_chains_with_control_characters_in_by_products_accepted", 1)
+				}
 				c.Class("hostile-dir", h.name, dsse, runDir)
 				c.Sample("hostile-dir", map[string]any{"directory": h.name, "dsse": dsse, "rundir": runDir, "error": errStr(obs.Err)})
 				os.Chmod(filepath.Join(ch.LinkDir, gen.LinkName("write", ch.W.Pub.KeyID)), 0644)
